@@ -1,10 +1,21 @@
 import StarsimModel.Model.Slots
+import StarsimModel.Model.History
 import StarsimModel.Model.Proto
 open StarsimModel StarsimModel.Slots StarsimModel.Proto
 
 def showOptNat : Option Nat → String
   | some n => toString n
   | none => "x"
+
+def showP (p : Hist.P) : String := s!"{p.1}:{showList toString p.2}"
+
+/-- `c<n>` call of size n, `r<k>` reset(k), `j<t>` jump(to=t) -/
+def parseHistOp? (t : String) : Option Hist.Op :=
+  match t.toList with
+  | 'c' :: r => (String.ofList r).toNat?.map Hist.Op.call
+  | 'r' :: r => (String.ofList r).toNat?.map Hist.Op.reset
+  | 'j' :: r => (String.ofList r).toNat?.map Hist.Op.jump
+  | _ => none
 
 def stepLine (_ : Unit) (line : String) : Unit × String :=
   match words line with
@@ -21,6 +32,12 @@ def stepLine (_ : Unit) (line : String) : Unit × String :=
           if us.length < reqSize slots then ((), "bad-op")
           else ((), s!"sel={showList toString (filterCode u req)}")
       | _, _, _, _ => ((), "bad-op")
+  | ["hist", ops] =>
+      match (ops.splitOn ",").mapM parseHistOp? with
+      | some ops =>
+          let d := Hist.run Hist.advP Hist.jumpedP (Hist.init (0, [])) ops
+          ((), s!"len={d.hist.length} cur={showP d.cur} hist={String.intercalate ";" (d.hist.map showP)}")
+      | none => ((), "bad-op")
   | ["combine", as, bs] =>
       match parseNatList? as, parseNatList? bs with
       | some as, some bs =>
